@@ -211,6 +211,34 @@ func runC16(c *eng.Ctx) {
 			why)
 	})
 
+	// ---- 2d. every row of a batch is routed by its own tags; duplicates are compacted whenever there can be one ----------------------
+	c.Rule("PASS", bbrT+".NewShardGroupIterator{every row hashed} / deDupTags{skipped only below two tags}", func() {
+		f := c.Fn(bbrT + ".NewShardGroupIterator")
+		st := c.One(f, eng.StoreField("series/metric.BrokerRow.shardIdx"), "rows[i].shardIdx = jump.Hash(kvsHash, numOfShards)")
+		everyIterationPasses(c, f, st, "no-row-keeps-a-stale-shard-index",
+			"the shard index of EVERY row of the batch is recomputed for this request (rows and their slots are pooled: a row that is skipped keeps the index an earlier request left there, possibly beyond the shard count)")
+		d := c.Fn(cvtT + ".deDupTags")
+		so := c.One(d, eng.CallTo("sort.Sort"), "sort.Sort(kvs)")
+		facts := p.MustFacts(d)
+		n := 0
+		for _, b := range d.Blocks {
+			r, ok := b.Instrs[len(b.Instrs)-1].(*ssa.Return)
+			if !ok || b == d.Recover {
+				continue
+			}
+			if eng.DominatedBy(d, r, []eng.Site{so}, nil) {
+				continue
+			}
+			n++
+			fs := facts.At(r)
+			few := facts.Find(fs, "lt", func(dd string, _ ssa.Value) bool { return strings.Contains(dd, "len(") }, eng.DescIs("2"))
+			few = append(few, facts.Find(fs, "le", func(dd string, _ ssa.Value) bool { return strings.Contains(dd, "len(") }, eng.DescIs("1"))...)
+			c.Check(len(few) > 0, fmt.Sprintf("dedup-skipped-only-below-two-tags[%d]", n), r, d,
+				"de-duplication (sort, then compaction of equal keys) is skipped only for fewer than two tags: a list that is already in key order can still hold a repeated key",
+				"facts at the early return: "+strings.Join(facts.Render(fs), " ; "))
+		}
+	})
+
 	// ---- 4. every simple field type has a case ---------------------------------------------------------------------------------
 	c.Rule("EXHAUSTIVE", cvtT+".MarshalProtoMetricV1{SimpleFieldType}", func() {
 		pk := p.ByPath["github.com/lindb/common/proto/gen/v1/linmetrics"]
